@@ -1,6 +1,7 @@
 (* C12 -- total statements: cmdline() and environ() for every byte string, and the
    decision table of exe()/cwd() when the link is not given. *)
 From PV Require Import C12.Spec C12.Proofs C12.ProofsEnv C12.ProofsLink.
+From Coq Require Import ZifyBool.
 
 (* ---------------------------------------------------------------- split_on facts *)
 Lemma split_on_nonnil sep l : split_on sep l <> [].
@@ -183,4 +184,82 @@ Proof.
   - intros E Hlive Hden. unfold fe_exe, pl_exe. rewrite E, H. unfold link_table.
     destruct (v_stat v) as [[|]|]; [reflexivity|congruence|].
     rewrite (Hden eq_refl). reflexivity.
+Qed.
+
+(* ---------------------------------------------------------------- described-by-repetition inputs of any size *)
+Lemma contains_concat_repeat b u n : contains b u = false -> contains b (concat (repeat u n)) = false.
+Proof.
+  intros H. induction n as [|n IH]; [reflexivity|]. cbn [repeat concat]. now rewrite contains_app, H, IH.
+Qed.
+
+Lemma big_arg_nul_free g : group_ok g = true -> nul_free (big_arg g) = true.
+Proof.
+  unfold group_ok, nul_free, big_arg. intros H. apply andb_true_iff in H as [Hu Ht].
+  apply negb_true_iff in Hu, Ht. now rewrite contains_app, contains_concat_repeat, Ht.
+Qed.
+
+Lemma forallb_repeat {A} (f : A -> bool) x n : f x = true -> forallb f (repeat x n) = true.
+Proof. intros H. induction n as [|n IH]; [reflexivity|]. cbn. now rewrite H, IH. Qed.
+
+Lemma expand_args_nul_free gs : forallb group_ok gs = true -> forallb nul_free (expand_args gs) = true.
+Proof.
+  unfold expand_args. induction gs as [|g gs IH]; [reflexivity|]. cbn [forallb map concat]. intros H.
+  apply andb_true_iff in H as [Hg Hr]. rewrite forallb_app, IH by exact Hr.
+  rewrite forallb_repeat; [reflexivity|now apply big_arg_nul_free].
+Qed.
+
+(* every argument vector described by repetition, however large: cmdline() returns every argument *)
+Lemma cmdline_repeat : forall gs zombie,
+  forallb group_ok gs = true -> expand_args gs <> [] -> single_space (expand_args gs) = false ->
+  pl_cmdline now (view_cmd (KArgv (expand_args gs)) zombie) = Val (expand_args gs).
+Proof. intros gs z H1 H2 H3. apply cmdline_argv_now; [exact H2|now apply expand_args_nul_free|exact H3]. Qed.
+
+(* decimal indices contain digits only *)
+Lemma dec_fuel_digits : forall fuel z, 0 <= z -> forallb (fun c => (48 <=? c) && (c <=? 57)) (dec_fuel fuel z) = true.
+Proof.
+  induction fuel as [|f IH]; intros z Hz; [reflexivity|]. cbn [dec_fuel].
+  destruct (z <? 10) eqn:E.
+  - cbn [forallb]. lia.
+  - rewrite forallb_app, IH by (apply Z.div_pos; lia). cbn [forallb].
+    pose proof (Z.mod_pos_bound z 10 ltac:(lia)). lia.
+Qed.
+
+Lemma digits_free b l :
+  (b <? 48) || (57 <? b) = true -> forallb (fun c => (48 <=? c) && (c <=? 57)) l = true -> contains b l = false.
+Proof.
+  intros Hb. induction l as [|c r IH]; [reflexivity|]. cbn [forallb]. intros H. apply andb_true_iff in H as [Hc Hr].
+  rewrite contains_cons, IH by exact Hr. lia.
+Qed.
+
+Definition egroup_ok (g : egroup) : bool :=
+  match eg_prefix g with [] => false | _ => true end
+  && nul_free (eg_prefix g) && negb (contains 61 (eg_prefix g)) && group_ok (eg_value g).
+
+Lemma expand_egroup_ok start g : egroup_ok g = true -> forallb item_ok (expand_egroup start g) = true.
+Proof.
+  unfold egroup_ok, expand_egroup. intros H.
+  apply andb_true_iff in H as [H Hv]. apply andb_true_iff in H as [H H61]. apply andb_true_iff in H as [Hne H0].
+  apply negb_true_iff in H61. unfold nul_free in H0. apply negb_true_iff in H0.
+  induction (seq start (g_times (eg_value g))) as [|i l IH]; [reflexivity|].
+  cbn [map forallb]. rewrite IH, andb_true_r. cbn [item_ok].
+  pose proof (dec_fuel_digits 20 (Z.of_nat i) ltac:(lia)) as Hd. fold (dec_of_nat i) in Hd.
+  rewrite big_arg_nul_free by exact Hv.
+  unfold nul_free. rewrite !contains_app, H0, H61.
+  rewrite (digits_free 0 _ eq_refl Hd), (digits_free 61 _ eq_refl Hd). cbn [orb negb andb].
+  destruct (eg_prefix g); [discriminate|reflexivity].
+Qed.
+
+Lemma expand_env_ok : forall gs start, forallb egroup_ok gs = true -> forallb item_ok (expand_env start gs) = true.
+Proof.
+  induction gs as [|g gs IH]; intros start H; [reflexivity|]. cbn [forallb] in H. apply andb_true_iff in H as [Hg Hr].
+  cbn [expand_env]. now rewrite forallb_app, expand_egroup_ok, IH.
+Qed.
+
+(* every environment described by repetition, however large: environ() holds every variable *)
+Lemma environ_repeat : forall gs,
+  forallb egroup_ok gs = true ->
+  exists d, pl_environ now (view_env {| e_items := expand_env 0 gs; e_tail := ENone |}) = Val d /\ NoDup (map fst d) /\
+            forall k, aget k d = env_last k (expand_env 0 gs).
+Proof.
+  intros gs H. apply environ_lookup_now. unfold wf_env. cbn [e_items e_tail tail_ok]. now rewrite expand_env_ok.
 Qed.
